@@ -8,6 +8,7 @@ an `…_native.bv_decide.ax_*` axiom which the audit lists by name.
 import ElfioVerif.Basic
 import ElfioVerif.Gen.Funcs
 import ElfioVerif.Gen.SitesC11
+import ElfioVerif.Gen.SitesC10
 import Std.Tactic.BVDecide
 
 namespace ElfioVerif
@@ -87,6 +88,7 @@ theorem sext32_trunc_of_fits (a : BitVec 64) (h1 : BitVec.sle (-2147483648#64) a
 end ElfioVerif
 
 namespace ElfioVerif
+open Gen
 /-- flag tests of the membership rule: `(flags & F) == F` for a single-bit `F` is a bit test -/
 theorem and_eq_bit1 (x : BitVec 64) : ((x &&& 2#64) == 2#64) = x.getLsbD 1 := by
   bv_decide
@@ -94,4 +96,29 @@ theorem and_eq_bit10 (x : BitVec 64) : ((x &&& 1024#64) == 1024#64) = x.getLsbD 
   bv_decide
 theorem and_ne_bit10 (x : BitVec 64) : ((x &&& 1024#64) != 1024#64) = !x.getLsbD 10 := by
   bv_decide
+/-! ### C10 — the ELF_ST_BIND tests of `generic_arrange_local_symbols` and the r_info packing of
+`generic_set_entry_rel/rela` against the `get_r_sym` / `get_r_type` extractors -/
+
+theorem arr_scan1_nonlocal_bits (b : BitVec 8) :
+    arr64_scan1_nonlocal arr_conv8 b = (b >>> 4 != 0#8) := by
+  simp only [arr64_scan1_nonlocal, arr_conv8, STB_LOCAL]; bv_decide
+theorem arr_scan2_local_bits (b : BitVec 8) :
+    arr64_scan2_local arr_conv8 b = (b >>> 4 == 0#8) := by
+  simp only [arr64_scan2_local, arr_conv8, STB_LOCAL]; bv_decide
+
+theorem rel64_sym_info (s t : BitVec 32) :
+    rel64_r_sym (rsw_rel64_info s t) = s := by
+  simp only [rel64_r_sym, rsw_rel64_info]; bv_decide
+theorem rel64_type_info (s t : BitVec 32) :
+    rel64_r_type (rsw_rel64_info s t) = t := by
+  simp only [rel64_r_type, rsw_rel64_info]; bv_decide
+theorem rel32_sym_info (s t : BitVec 32) (h : BitVec.ult s 16777216#32 = true) :
+    rel32_r_sym (BitVec.setWidth 64 (rsw_rel32_info s t)) = s := by
+  simp only [rel32_r_sym, rsw_rel32_info]; bv_decide
+theorem rel32_type_info (s : BitVec 32) (t' : BitVec 64) :
+    rel32_r_type (BitVec.setWidth 64 (rsw_rel32_info s (rel32_r_type t'))) = rel32_r_type t' := by
+  simp only [rel32_r_type, rsw_rel32_info]; bv_decide
+theorem setWidth_signExtend_32 (v : BitVec 32) : BitVec.setWidth 32 (BitVec.signExtend 64 v) = v := by
+  bv_decide
+
 end ElfioVerif
